@@ -128,6 +128,8 @@ def build(rng, it):
         if k % 2:
             s['words'][3][0] = [0x00, 0x20, 0x02, 0x01, 0x23, 0xFF][k % 6]
         secs.append(s)
+        if nsrc == 3 and j == 1 and k % 2:
+            secs.append(genpel.gen_mt(rng))          # something between the two secondary SRCs
     if k % 6 == 0:
         secs.append(genpel.gen_other(rng, rng.choice(['ID', 'PE', 'MR', 'XX'])))
     pel['secs'] = secs
